@@ -70,6 +70,8 @@ class Monitors(Listener):
         self.rowcheck = 0
         self.blocks = 0
         self.tier_moves = 0
+        self.live_h2c = set()             # pids of hot->cold moves in flight
+        self.max_live_h2c = 0
         self.max_hot_used = Fraction(0)
         self.kinds = {}
         self.pre = None
@@ -158,6 +160,9 @@ class Monitors(Listener):
                 self.viol("C04", "task-started-twice", task.id)
         elif k in ("hot2cold", "cold2hot"):
             self.tier_moves += 1
+            if k == "hot2cold":
+                self.live_h2c.add(pid)
+                self.max_live_h2c = max(self.max_live_h2c, len(self.live_h2c))
 
     # ---------------------------------------------------------------- blocks
     def on_begin(self, pid, info):
@@ -205,6 +210,8 @@ class Monitors(Listener):
             self.check_row_post()
         if k == "provingest" and info["blocks"] == 1 and outcome[0] == "yield":
             self.after_prov_ingest(info)
+        if k == "hot2cold" and outcome[0] in ("end", "raise"):
+            self.live_h2c.discard(pid)
         if k in ("hot2cold", "cold2hot") and outcome[0] != "raise":
             b = sim.buffer
             s2 = b.hot[0].current_capacity + b.cold[0].current_capacity
@@ -373,7 +380,11 @@ class Monitors(Listener):
                     o.name, fr(o.total_data_size - prev), fr(hot.max_ingest_data_rate)))
             self.ingested_so_far[o.name] = o.total_data_size
         if cold.current_capacity < 0 or cold.current_capacity > cold.total_capacity:
-            self.viol("C07", "cold-free-space-out-of-range", "%s of %s" % (fr(cold.current_capacity), fr(cold.total_capacity)))
+            # K5 predicate: several hot->cold moves were in flight at once (each saw room for itself plus at most
+            # the one observation in the cold tier's transfer slot)
+            self.viol("C07", "cold-free-space-out-of-range", "%s of %s (up to %d hot->cold moves in flight at once)" % (
+                fr(cold.current_capacity), fr(cold.total_capacity), self.max_live_h2c),
+                sig="cold-free-space-out-of-range" + (":concurrent-h2c" if self.max_live_h2c >= 2 and cold.current_capacity < 0 else ""))
         if self.tier_moves == 0:
             resident = 0
             for o in tel.observations:
@@ -410,6 +421,24 @@ class Monitors(Listener):
                     self.viol("C09", "reservation-changed-size",
                               "%s holds %d machines (%d idle + %d busy), reserved %d" % (
                                   name, held, len(l), len(busy), self.reservation_sizes[name]))
+        # C14: the plan's predecessor / successor queries keep mirroring the workflow graph while the plan
+        # is being executed (finished tasks are pruned from plan.tasks, never from the graph)
+        if self.want("C14") and k == "monitor":
+            for plan in [o.plan for o in tel.observations
+                         if getattr(o, "plan", None) is not None and o.plan.graph is not None]:
+                g = plan.graph
+                for t in g.nodes:
+                    want_p = sorted(x.id for x in g.predecessors(t))
+                    want_s = sorted(x.id for x in g.successors(t))
+                    try:
+                        got_p = sorted(x.id for x in plan.get_task_predecessors(t))
+                        got_s = sorted(x.id for x in plan.get_task_successors(t))
+                    except Exception as e:   # noqa
+                        self.viol("C14", "plan-query-raised", "%s: %s" % (t.id, type(e).__name__))
+                        continue
+                    if got_p != want_p or got_s != want_s:
+                        self.viol("C14", "plan-query-differs-from-graph",
+                                  "%s: predecessors %s (graph %s), successors %s (graph %s)" % (t.id, got_p, want_p, got_s, want_s))
         # C19 queries
         if self.want("C19"):
             truth_cluster = (not cv["running"]) and (not cv["occupied"]) and (not cv["ingest"])
